@@ -10,7 +10,7 @@ def showReject : Reject → String
 def b01 (b : Bool) : String := if b then "1" else "0"
 
 def showKind : ItemKind → String
-  | .assocConst => "const" | .method => "fn" | .traitMethod => "traitfn" | .structDef => "struct"
+  | .assocConst => "const" | .method => "fn" | .setter => "fn" | .traitMethod => "traitfn" | .structDef => "struct"
   | .builderStep => "step" | .build => "build"
 
 def showItems (items : List Item) : String :=
